@@ -4,7 +4,10 @@ Implementation side: histories of single-valued assignment, container assignment
 REAL descriptors (`PropertyDescriptor.__set__`, `MonitoredList.append`, `MonitoredSet.add`, and through them
 `PropertyDescriptorRelation.add_to_graph`) over (U) the repository's university-like classes and (D) a harness
 schema with a diamond of sub-properties, an inverse pair, two transitive properties (one with a sub-property and an
-inverse) and a role taker. Every history is also run in permuted orders. Observation: the set of relation triples
+inverse) and a role taker, and (H) a schema whose domain classes form a subclass hierarchy with one transitive
+descriptor class attached to two unrelated classes. Every history is also run in permuted orders; a further family
+interleaves the assertions with instance churn (short-lived instances die, new ones take over their addresses, dead
+nodes are swept from the symbol graph) and checks the closure over the live instances. Observation: the set of relation triples
 `SymbolGraph().relations()` and the contents of every managed field, both as sets over harness labels — exactly
 what the property talks about; a single-valued field is compared as "one of the derivable targets" (the graph
 never retracts, DESIGN section 5/C15)."""
@@ -43,8 +46,13 @@ TRUSTED = [
     "processes) and the S-expression driver",
 ]
 ASSUMPTIONS = [
-    "fragment: domain classes do not inherit managed fields from one another, a transitive descriptor class is "
-    "attached to one field, inverses always find their field (no ValueError), objects are truthy and compare by "
+    "a relation is identified by (descriptor class, source, target): the implementation also tells apart the owner "
+    "class recorded in the wrapped field (Place.located_in / City.located_in on a City(Place) instance; one descriptor "
+    "class attached to two classes) - the model and the observation work on that quotient; collection assignment "
+    "is not generated in schema H, where such variants become visible in the fields inside the F-C15-1 trigger",
+    "instances that die during a history take part in no relation and play no role (nothing else can die: fields hold "
+    "strong references)",
+    "inverses always find their field (no ValueError), objects are truthy and compare by "
     "identity (harness classes) or by distinct names (repository classes)",
     "rustworkx out_edges()/in_edges() return a snapshot list (the transitive loops iterate over edges present "
     "when the loop starts)",
@@ -76,6 +84,10 @@ def _desc(tag: str) -> dict:
 
 def _world(rng, tag: str):
     """[(class id, role taker index or '-')]; role takers precede the roles that use them"""
+    if tag == "H":
+        # Place, City(Place), Metropolis(City), Region: at least one instance of a subclass and one plain Place
+        counts = [rng.randint(1, 2), rng.randint(1, 2), rng.randint(0, 2), rng.randint(0, 2)]
+        return [(c, "-") for c, k in enumerate(counts) for _ in range(k)]
     if tag == "U":
         n0, n1, n2 = rng.randint(1, 3), rng.randint(2, 4), rng.randint(0, 2)
     else:
@@ -92,12 +104,14 @@ def _world(rng, tag: str):
     return objs
 
 
-def _ops(rng, d: dict, objs, n: int, weights=None):
+def _ops(rng, d: dict, objs, n: int, weights=None, usable=None, single_done=None, no_assign=False):
+    """`usable`: indices of the instances that exist (and stay alive) while these assertions are made"""
     by_cls: Dict[int, List[int]] = {}
     for i, (c, _) in enumerate(objs):
-        by_cls.setdefault(c, []).append(i)
+        if usable is None or i in usable:
+            by_cls.setdefault(c, []).append(i)
     ops = []
-    single_done = set()
+    single_done = set() if single_done is None else single_done
     nf = len(d["fields"])
     trans_like = [f for f in range(nf) if d["kinds"][f] != "single"]
     guard = 0
@@ -106,8 +120,7 @@ def _ops(rng, d: dict, objs, n: int, weights=None):
         f = rng.randrange(nf)
         if weights and rng.random() < 0.5:
             f = rng.choice(weights)
-        c = d["fields"][f][0]
-        srcs = by_cls.get(c, [])
+        srcs = [o for c in d["applies"][f] for o in by_cls.get(c, [])]
         tgts = [o for tc in d["targets"][f] for o in by_cls.get(tc, [])]
         if not srcs or not tgts:
             continue
@@ -118,7 +131,7 @@ def _ops(rng, d: dict, objs, n: int, weights=None):
             single_done.add((f, s))
             ops.append(f"(set {f} {s} {rng.choice(tgts)})")
         else:
-            r = rng.random()
+            r = 0.0 if no_assign else rng.random()
             if r < 0.86:
                 ops.append(f"(add {f} {s} {rng.choice(tgts)})")
             elif r < 0.94:
@@ -138,7 +151,12 @@ def _line(d: dict, objs, ops) -> str:
 # fixed histories run in ALL 24 orders: a 4-cycle of sub-organisations; role + single-valued + set + list over one
 # company; a diamond in a transitive relation; a sub-property chain closed into a cycle through the inverse; role
 # taker, diamond of sub-properties, inverse through a role, inverse that is a sub-property
+_HOBJ = [(0, "-"), (0, "-"), (1, "-"), (2, "-"), (3, "-"), (3, "-")]
 _FIXED = [
+    # subclass hierarchy: a sub-property asserted on a City / Metropolis instance, chained with relations asserted on
+    # the declaring class and on an unrelated class carrying the same transitive descriptor
+    ("H", _HOBJ, ["(add 2 2 0)", "(add 0 0 1)", "(add 0 1 4)", "(add 0 4 5)"]),
+    ("H", _HOBJ, ["(set 3 3 2)", "(add 0 2 4)", "(add 1 5 4)", "(add 2 2 0)"]),
     ("U", [(0, "-"), (0, "-"), (1, "-"), (1, "-"), (1, "-"), (1, "-"), (2, 0)],
      ["(add 3 5 4)", "(add 3 4 3)", "(add 3 3 2)", "(add 3 2 5)"]),
     ("U", [(0, "-"), (0, "-"), (1, "-"), (1, "-"), (1, "-"), (1, "-"), (2, 0)],
@@ -159,6 +177,32 @@ _FIXED = [
 ]
 
 
+def _churn_history(rng, d: dict, tag: str, maxlen: int):
+    """assertions, then short-lived instances WITHOUT relations are created and discarded, each followed by a new
+    instance (CPython hands it the freed address), the new ones take part in assertions, the dead nodes are swept from the symbol graph (what
+    every query evaluation does), and more assertions follow. Returns (objs, segments); the order inside a
+    segment is free."""
+    objs = _world(rng, tag)
+    base = set(range(len(objs)))
+    ncls = [c for c, r in objs if r == "-"]
+    k = rng.randint(1, 3)
+    cls = [rng.choice(ncls) for _ in range(k)]
+    temps = list(range(len(objs), len(objs) + k))
+    objs = objs + [(c, "-") for c in cls]
+    lates = list(range(len(objs), len(objs) + k))
+    objs = objs + [(c, "-") for c in cls]
+    done = set()
+    w = [f for f, (c, name) in enumerate(d["fields"]) if d["kinds"][f] != "single"]
+    na = tag == "H"
+    seg1 = _ops(rng, d, objs, rng.randint(0, 3), w, base, done, na)
+    churn = [x for t, l in zip(temps, lates) for x in (f"(kill {t})", f"(new {l})")]
+    live = base | set(lates)
+    seg2 = _ops(rng, d, objs, rng.randint(1, max(2, maxlen // 2)), w, live, done, na)
+    # make sure a new instance is mentioned before the sweep
+    seg3 = _ops(rng, d, objs, rng.randint(1, max(2, maxlen // 2)), w, live, done, na)
+    return objs, [seg1, churn, seg2, ["(sweep)"], seg3]
+
+
 def generate(rng, tier, n):
     import itertools
     cases: List[Case] = []
@@ -166,14 +210,31 @@ def generate(rng, tier, n):
     for tag, objs, ops in _FIXED:
         for perm in itertools.permutations(ops):
             cases.append(Case(_line(_desc(tag), objs, list(perm)), ("schema-" + tag, "all-orders"), "exhaustive"))
+    for i in range(max(30, n // 4)):
+        tag = ("H", "U", "D", "H")[i % 4]
+        d = _desc(tag)
+        objs, segs = _churn_history(rng, d, tag, maxlen)
+        if not (segs[2] and segs[4]):
+            continue
+        for v in range(2):
+            ops = []
+            for seg in segs:
+                seg = seg[:]
+                if v and seg and not seg[0].startswith(("(kill", "(new", "(sweep")):
+                    rng.shuffle(seg)
+                ops += seg
+            cases.append(Case(_line(d, objs, ops), ("schema-" + tag, "instance-churn"), "random"))
     for i in range(n):
-        tag = "U" if i % 5 < 2 else "D"
+        tag = ("U", "U", "D", "D", "H", "D", "H")[i % 7]
         d = _desc(tag)
         objs = _world(rng, tag)
         # favour the transitive fields and the role: that is where order could matter
         trans_fields = [f for f, (c, name) in enumerate(d["fields"])
-                        if name in ("sub_organization_of", "near", "anc", "parent", "desc", "head_of", "rbottom", "owns", "rright", "holds", "held_by")]
-        ops = _ops(rng, d, objs, rng.randint(1, maxlen), trans_fields)
+                        if name in ("sub_organization_of", "near", "anc", "parent", "desc", "head_of", "rbottom", "owns", "rright", "holds", "held_by",
+                                    "located_in", "capital_of", "contains", "seat_of")]
+        # schema H: no collection assignment — in the trigger region of F-C15-1 the wrapped-field variants the model
+        # abstracts from become visible in the fields (a second variant of a known relation is written back)
+        ops = _ops(rng, d, objs, rng.randint(1, maxlen), trans_fields, no_assign=(tag == "H"))
         if not ops:
             continue
         kinds = tuple(sorted({o.split()[0][1:] for o in ops}))
